@@ -23,4 +23,8 @@ OBLIGATIONS.append(Ob('C18.cmpgram_flags', H, 'h_cmpgram_flags', tier='quick', u
     defines={'BACKING': 24, 'MAXCORNERS': 3, 'VERIF_ALLOC_BOUND(n)': '((n)<=8+g_verif_input_len)'},
     bound='24-byte backing buffer, symbolic length/position/version, declared corner count 0..3; bound: every allocation <= 8 + stream length + number of corners',
     covers='MeshPredictionSchemeConstrainedMultiParallelogramDecoder::DecodePredictionData (num_flags <= num_corners guard, is_crease_edge_ resize), RAnsBitDecoder, wrap DecodeTransformData'))
+OBLIGATIONS.append(Ob('C18.texcoords_orient', H, 'h_texcoords_orient', tier='quick', unwind=8, ub=True, flavour='nospec', max_alloc=32, allow_alloc_cut=True,
+    defines={'BACKING': 24, 'MAXCORNERS': 3, 'VERIF_ALLOC_BOUND(n)': '((n)<=8+g_verif_input_len)'},
+    bound='24-byte backing buffer, symbolic length/position/version, declared corner count 0..3; bound: every allocation <= 8 + stream length + number of corners',
+    covers='MeshPredictionSchemeTexCoordsPortableDecoder::DecodePredictionData (orientation count, orientations_ resize), RAnsBitDecoder, wrap DecodeTransformData'))
 META = {}
